@@ -8,6 +8,7 @@ export VERIF_ROOT="$PWD" GOFLAGS=-mod=mod GOPROXY=off GOSUMDB=off GOTOOLCHAIN=lo
 N="${1:-40}"; REPS="${2:-2}"; shift; shift
 IDS="$@"; [ -z "$IDS" ] && IDS=$(python3 -c "print(' '.join('C%02d'%i for i in range(1,21)))")
 ./check --build || exit 2
+go build -o bin/yieldinstr ./tools/yieldinstr || exit 2
 echo "map ranges / sync.Map.Range in the harness (must be empty or sorted-key helpers only):"
 grep -rn "sync\.Map\|\.Range(func" internal cmd --include=*.go | head
 fail=0
